@@ -781,6 +781,8 @@ def gen_C16(r):
         return scn
     scn = _small_project(r, n=(2, 5), kinds={"exp": 6, "cmd": 3, "group": 1, "combine": 1}, p_par=0.7)
     scn["knobs"]["p_async"] = r.choice([0.0, 1e-3, 5e-3, 2e-2])
+    if r.random() < 0.2:
+        S.add_include(r, scn)          # the signal may land while an include()d file is being evaluated
     ops = []
     if r.random() < 0.15:
         exps_ = [t for t, d in scn["tasks"].items() if d["kind"] == "exp"]
